@@ -16,13 +16,14 @@ Definition attr := (nat * nat * nat)%type.
 
 (* one node of the input.  Node objects are numbered 0..n-1 before the call (pre-order); any other
    object that shows up in a link gets a number >= n.  e_priv = None: the name-mangled private link
-   fields hold exactly what the public getters return; Some (p, l) otherwise. *)
+   fields hold exactly what the public getters return; Some (p, l) otherwise.
+   e_pars: the parent ([] or [p]) of a tree node, the parents in order of a DAGNode. *)
 Record entry := E {
-  e_par  : option id;
+  e_pars : list id;
   e_kids : list (option id);            (* None: an empty BinaryNode slot *)
   e_name : str;
   e_attrs : list attr;
-  e_priv : option (option id * list (option id))
+  e_priv : option (list id * list (option id))
 }.
 
 (* sg_walk: pre-order walk from the original root object through the public children getter *)
@@ -36,12 +37,12 @@ Definition kids_eqb := list_eqb oid_eqb.
 Definition attr_eqb (a b : attr) : bool :=
   let '(k, c, _) := a in let '(k', c', _) := b in Nat.eqb k k' && Nat.eqb c c'.
 Definition attrs_eqb := list_eqb attr_eqb.
-Definition priv_eqb := opt_eqb (fun a b : option id * list (option id) =>
-                                  oid_eqb (fst a) (fst b) && kids_eqb (snd a) (snd b)).
+Definition priv_eqb := opt_eqb (fun a b : list id * list (option id) =>
+                                  list_eqb Nat.eqb (fst a) (fst b) && kids_eqb (snd a) (snd b)).
 
 (* parent, children order, name, attributes (+ the private link fields) *)
 Definition entry_eqb (a b : entry) : bool :=
-  oid_eqb (e_par a) (e_par b) && kids_eqb (e_kids a) (e_kids b) && str_eqb (e_name a) (e_name b)
+  list_eqb Nat.eqb (e_pars a) (e_pars b) && kids_eqb (e_kids a) (e_kids b) && str_eqb (e_name a) (e_name b)
   && attrs_eqb (e_attrs a) (e_attrs b) && priv_eqb (e_priv a) (e_priv b).
 
 (* "every node of the input tree has the same parent, children order, name and attributes" *)
@@ -129,3 +130,54 @@ Definition result_equal_part (exact : bool) (before : sig) (anchor : id) (result
   let e := sub_rt (length (sg_entries before)) before anchor in
   Nat.ltb anchor (length (sg_entries before))
   && if exact then same_tree result e else part_of result e.
+
+(* ------------------------------------------------------------------------------------------ *)
+(* DAGs: what was handed back is a set of nodes (found by following parents and children from the
+   returned node), each with its identity and its entry *)
+
+Definition dnode := (id * entry)%type.
+
+Definition dres_eqb (a b : list dnode) : bool :=
+  list_eqb (fun x y : dnode => Nat.eqb (fst x) (fst y) && entry_eqb (snd x) (snd y)) a b.
+
+Definition dres_ids (l : list dnode) : list id :=
+  flat_map (fun d : dnode => fst d :: e_pars (snd d) ++ somes (e_kids (snd d))) l.
+
+Fixpoint find_name (nm : str) (es : list entry) (i : nat) : option id :=
+  match es with
+  | [] => None
+  | e :: t => if str_eqb (e_name e) nm then Some i else find_name nm t (S i)
+  end.
+
+(* node names are unique in a DAG: a result node stands for the input node of the same name; an
+   input object stands for itself *)
+Definition stands_for (before : sig) (res : list dnode) (rid : id) : option id :=
+  if Nat.ltb rid (length (sg_entries before)) then Some rid else
+  match find (fun d : dnode => Nat.eqb (fst d) rid) res with
+  | Some d => find_name (e_name (snd d)) (sg_entries before) 0
+  | None => None
+  end.
+
+(* "equal to the corresponding part": every result node has the attributes of the input node it
+   stands for, its parents and children stand, in order, for that node's parents and children (so
+   the result is closed under the links of the input and nothing dangles), distinct result nodes
+   stand for distinct input nodes, and the returned node stands for the start node *)
+Definition dag_equal_part (before : sig) (start : id) (res : list dnode) (ret : id) : bool :=
+  let es := sg_entries before in
+  let m := stands_for before res in
+  forallb (fun d : dnode =>
+             match m (fst d) with
+             | None => false
+             | Some i =>
+                 match nth_error es i with
+                 | None => false
+                 | Some e =>
+                     str_eqb (e_name (snd d)) (e_name e) && attrs_eqb (e_attrs (snd d)) (e_attrs e)
+                     && list_eqb oid_eqb (map m (e_pars (snd d))) (map Some (e_pars e))
+                     && list_eqb oid_eqb (map (fun o => match o with Some k => m k | None => None end) (e_kids (snd d)))
+                                 (e_kids e)
+                 end
+             end) res
+  && nodupb (flat_map (fun d : dnode => match m (fst d) with Some i => [i] | None => [] end) res)
+  && oid_eqb (m ret) (Some start)
+  && existsb (fun d : dnode => Nat.eqb (fst d) ret) res.
